@@ -5,7 +5,7 @@ CONFIG = {
     'level': 'exploration',
     'budget': {'quick': 30, 'thorough': 600},
     'rule': ('random programs x histories with a planting bias (foreign files inside created '
-             'directories, at former output positions, next to the cache file, file<->dir swaps) across '
+             'directories, at former output positions, next to the cache file, file<->dir swaps; >128 overwritten foreign files in one rolled-back build) across '
              'commits, rollbacks and clean; two monitors: (1) audit-hook events of the library: every '
              'remove/rename/open-for-write/truncate/utime must target the cache file, a build_file '
              'target of this call, an output recorded by the *model* for the previous committed build, '
@@ -13,7 +13,7 @@ CONFIG = {
              'set keeps bytes, mtime and inode, every directory not recorded as created stays; '
              'the audit hook itself is cross-checked against strace -f on a side workload (every mutating system call inside an API call must have an audit event: counters strace_*); evaluations = API calls judged; distinct_nontrivial = distinct (program shape, step '
              'kinds) histories with >=1 hit and >=1 miss'),
-    'gates': ['swap_cases', 'swap_cases_rolled_back', 'builds_committed', 'builds_rolled_back', 'cleans', 'ev:os.rmdir|post-root',
+    'gates': ['many_backup_runs', 'swap_cases', 'swap_cases_rolled_back', 'builds_committed', 'builds_rolled_back', 'cleans', 'ev:os.rmdir|post-root',
               'ev:os.rename|root', 'ev:os.remove|post-root', 'ev:os.remove|clean', 'ev:os.rmdir|clean'],
 }
 
@@ -55,6 +55,11 @@ def run_shard(sh):
         strace_crosscheck(sh)
     from .swapcases import run_swap_cases
     run_swap_cases(sh, select, 'C03', nested_cache=sh.idx % 2 == 1)
+    if sh.idx % 8 == 1:
+        # more than 128 overwritten foreign files in one build that is rolled back: all of them are back
+        import random
+        from .c02 import many_backups
+        many_backups(sh, random.Random(sh.seed * 977 + sh.idx), variant='foreign', kinds=KINDS)
     run_histories(sh, select=select, steps_range=(4, 8) if sh.tier == 'quick' else (6, 14),
                   nested_prob=0.35, clean_prob=0.2, fail_prob=0.2, mut_weights=WEIGHTS,
                   mut_range=(1, 3))
